@@ -37,8 +37,9 @@ type World struct {
 	Pkgs     []*packages.Package // initial packages (./...)
 	All      map[string]*packages.Package
 	Prog     *ssa.Program
-	SSAPkgs  map[string]*ssa.Package // by import path
-	RepoFns  []*ssa.Function         // all source functions (incl. anonymous) of repo packages, sorted
+	SSAPkgs  map[string]*ssa.Package  // by import path
+	renamed  map[string]*ssa.Function // old key -> renamed function (ResolveRenamedFuncs)
+	RepoFns  []*ssa.Function          // all source functions (incl. anonymous) of repo packages, sorted
 	LoadWall time.Duration
 	cg       *CallGraph
 	fv       *fvIndex
@@ -179,6 +180,9 @@ func (w *World) Func(rel, recv, name string) *ssa.Function {
 		if f := p.Func(name); f != nil {
 			return f
 		}
+		if f := w.renamed[shortPkg(p.Pkg.Path())+"."+name]; f != nil {
+			return f // renamed, recognised by signature and callers
+		}
 		if f := w.uniqueByName(p, name); f != nil {
 			return f // the function became a method
 		}
@@ -200,6 +204,9 @@ func (w *World) Func(rel, recv, name string) *ssa.Function {
 				return w.unwrap(fn)
 			}
 		}
+	}
+	if f := w.renamed[shortPkg(p.Pkg.Path())+"."+recv+"."+name]; f != nil {
+		return f // renamed, recognised by signature and callers
 	}
 	if f := w.uniqueByName(p, name); f != nil {
 		return f // the method became a function or moved to another receiver
